@@ -7,7 +7,7 @@ expect_rule?:..., note}. A variant whose `old` text no longer occurs is skipped 
 import json, sys, os, subprocess, tempfile, glob, argparse, concurrent.futures as cf
 
 REPO = os.environ.get('VERIF_REPO', '/repo')
-BIN = '/verif/bin/grulecheck'
+BIN = os.path.join(os.path.dirname(os.path.dirname(os.path.abspath(__file__))), 'bin', 'grulecheck')
 
 def run_variant(v, known):
     overlay = {}
@@ -56,7 +56,7 @@ def main():
     ap.add_argument('--known', default='/verif/known_findings.json')
     ap.add_argument('files', nargs='*')
     a = ap.parse_args()
-    files = a.files or sorted(glob.glob('/verif/audit/*.json'))
+    files = a.files or sorted(glob.glob(os.path.join(os.path.dirname(os.path.dirname(os.path.abspath(__file__))), 'audit', '*.json')))
     variants = []
     for f in files:
         for v in json.load(open(f)):
